@@ -4,6 +4,8 @@ import (
 	"bytes"
 	"encoding/hex"
 
+	"github.com/aergoio/aergo-lib/db"
+	"github.com/aergoio/aergo/v2/consensus/impl/dpos/bp"
 	"github.com/aergoio/aergo/v2/consensus/impl/dpos/slot"
 	"github.com/aergoio/aergo/v2/types"
 	vf "github.com/aergoio/aergo/v2/zzvf"
@@ -324,4 +326,128 @@ func vfLinearHistory(n, h, faulty int, reach string) {
 		prevLib = lib.BlockNo
 	}
 	vf.Observe("lib", prevLib)
+}
+
+// ---- C08.e restart equality --------------------------------------------------------------------------------------
+
+// vfChainDB: the consensus.ChainDB a restarted node reads its blocks and the saved LIB status from.
+type vfChainDB struct {
+	hi *vfHist
+	kv *vf.KV
+}
+
+type vfNoBlock struct{}
+
+func (vfNoBlock) Error() string { return "vf: no such block" }
+
+func (c *vfChainDB) GetBestBlock() (*types.Block, error) { return c.hi.chain[len(c.hi.chain)-1], nil }
+func (c *vfChainDB) GetBlockByNo(no types.BlockNo) (*types.Block, error) {
+	if no >= uint64(len(c.hi.chain)) {
+		return nil, vfNoBlock{}
+	}
+	return c.hi.chain[no], nil
+}
+func (c *vfChainDB) GetHashByNo(no types.BlockNo) ([]byte, error) {
+	b, err := c.GetBlockByNo(no)
+	if err != nil {
+		return nil, err
+	}
+	return b.BlockHash(), nil
+}
+func (c *vfChainDB) GetBlock(hash []byte) (*types.Block, error) {
+	for _, b := range c.hi.chain {
+		if bytes.Equal(b.BlockHash(), hash) {
+			return b, nil
+		}
+	}
+	return nil, vfNoBlock{}
+}
+func (c *vfChainDB) GetGenesisInfo() *types.Genesis { return nil }
+func (c *vfChainDB) Get(key []byte) []byte          { return c.kv.Get(key) }
+func (c *vfChainDB) NewTx() db.Transaction          { return c.kv.NewTx() }
+
+func vfSameInfo(a, b *blockInfo) bool {
+	if a == nil || b == nil {
+		return a == b
+	}
+	return vf.And(a.BlockNo == b.BlockNo, a.BlockHash == b.BlockHash)
+}
+
+// vfSameLibState: the finality bookkeeping that determines the present and every future LIB is the same:
+// Lib, the per-producer proposals, and the confirmation counters of the blocks above the LIB.
+func vfSameLibState(a, b *libStatus, ob, finding string, class bool) {
+	vf.AssertKnown(vfSameInfo(a.Lib, b.Lib), ob+".lib", finding, class)
+	for id, pa := range a.Prpsd {
+		pb := b.Prpsd[id]
+		if pa == nil || pb == nil {
+			vf.AssertKnown(pa == pb, ob+".proposed", finding, class)
+			continue
+		}
+		vf.AssertKnown(vf.And(vfSameInfo(pa.Plib, pb.Plib), vfSameInfo(pa.PlibBy, pb.PlibBy)), ob+".proposed", finding, class)
+	}
+	vf.AssertKnown(len(a.Prpsd) == len(b.Prpsd), ob+".proposed", finding, class)
+	// confirmation counters above the LIB, oldest first
+	ea, eb := a.confirms.Front(), b.confirms.Front()
+	for ea != nil && cInfo(ea).BlockNo <= a.Lib.BlockNo {
+		ea = ea.Next()
+	}
+	for eb != nil && cInfo(eb).BlockNo <= b.Lib.BlockNo {
+		eb = eb.Next()
+	}
+	for ea != nil && eb != nil {
+		ca, cb := cInfo(ea), cInfo(eb)
+		vf.AssertKnown(vf.And(ca.BlockNo == cb.BlockNo, ca.confirmsLeft == cb.confirmsLeft), ob+".confirms", finding, class)
+		ea, eb = ea.Next(), eb.Next()
+	}
+	vf.AssertKnown(ea == nil && eb == nil, ob+".confirms", finding, class)
+	vf.AssertKnown(a.confirmsRequired == b.confirmsRequired, ob+".confirms", finding, class)
+}
+
+const vfFindingRestart = "F-C08-2-restart-confirms-required"
+
+// VF_C08_e: a node follows a linear honest history of h blocks, saving the LIB status with every block (Status.Save,
+// gob); after block r (choice) a second node object is started on the same data (real Status.init: bootLoader.load,
+// loadLibStatus, libStatus.load, loadPlibStatus; then Status.load). Its finality state must equal that of the node that
+// never stopped, immediately and after each of the remaining blocks.
+func VF_C08_e() { vfRestart(vf.Param("n", 3), vf.Param("h", 4), "C08.e") }
+
+// VF_C08_e_n5: the same with n >= 5 producers, where the restart path is known to differ (F-C08-2).
+func VF_C08_e_n5() { vfRestart(vf.Param("n", 5), vf.Param("h", 4), "C08.e.n5") }
+
+func vfRestart(n, h int, reach string) {
+	vf.NoMapPerm(true)
+	hi := vfNewHist(n, 0)
+	cdb := &vfChainDB{hi: hi, kv: vf.NewKV()}
+	s1 := hi.s
+	r := 1 + vf.Choice("restartAfter", h)
+	save := func(s *Status) {
+		tx := cdb.kv.NewTx()
+		if err := s.Save(tx); err != nil {
+			panic(err)
+		}
+		tx.Commit()
+	}
+	for k := 1; k <= r; k++ {
+		s1.Update(hi.next())
+		save(s1)
+	}
+	// restart
+	s2 := &Status{libState: newLibStatus(uint16(n)), bps: bp.NewSnapshots(&vfCluster{size: uint16(n)}, nil, nil)}
+	s2.init(cdb, 0)
+	s2.load()
+	// known class: confirmsRequired is fed back into newLibStatus(bpCount) on the restart path, which only is the
+	// identity when 2*(2n/3+1)/3+1 == 2n/3+1 (n <= 4)
+	cr := uint16(n)*2/3 + 1
+	class := cr*2/3+1 != cr
+	vf.Reach(reach)
+	vf.Assert(s2.bestBlock == s1.bestBlock, "C08.e.best")
+	vfSameLibState(s1.libState, s2.libState, "C08.e.restored", vfFindingRestart, class)
+	for k := r + 1; k <= h; k++ {
+		blk := hi.next()
+		s1.Update(blk)
+		s2.Update(blk)
+		vfSameLibState(s1.libState, s2.libState, "C08.e.continued", vfFindingRestart, class)
+	}
+	vf.Observe("lib1", s1.libState.Lib.BlockNo)
+	vf.Observe("lib2", s2.libState.Lib.BlockNo)
 }
